@@ -40,6 +40,7 @@ type Prog struct {
 	needAppendAxiom map[string]bool
 	scc     map[string]int
 	rawOrder []string
+	setupErrors []string
 	lemmas  []*lemmaInfo
 	lemmasBuilt bool
 	recSpec map[string]bool
